@@ -79,7 +79,10 @@ class C06(AstKindProp):
             if r.random() < 0.3:
                 # name and kind are not passed: the emitter takes them from the description
                 opts.update({"ir_type": opts["function_type"], "function_type": None, "name": None})
+        if r.random() < 0.25:
+            opts["emitted_before"] = r.choice([k for k in ("class", "function", "argparse") if k != kind])
         run.dist["kind"][kind] += 1
+        run.dist["emitted_before"][opts.get("emitted_before", "-")] += 1
         return {"ir": irutil.ir_to_json(irj), "kind": kind, "opts": opts}
 
     def describe(self, c):
@@ -90,7 +93,34 @@ class C06(AstKindProp):
         ir = self.py_ir(c["ir"])
         if c["opts"].get("ir_type"):
             ir["type"], ir["name"] = c["opts"]["ir_type"], "call_peril"
+        if c["opts"].get("emitted_before"):
+            # the same description object has already been through another emitter (with default text on)
+            from doctrans import emit as E
+
+            pre = {"class": E.class_, "function": E.function, "argparse": E.argparse_function}[c["opts"]["emitted_before"]]
+            try:
+                pre(ir, emit_default_doc=True)
+            except Exception:
+                pass
+            return ir, self._emit_same_object(c, ir)
         return ir, kinds.emit(c["kind"], ir, c["opts"])
+
+    def _fresh_ir(self, c):
+        ir = self.py_ir(c["ir"])
+        if c["opts"].get("ir_type"):
+            ir["type"], ir["name"] = c["opts"]["ir_type"], "call_peril"
+        return ir
+
+    def _emit_same_object(self, c, ir):
+        from doctrans import emit as E
+
+        o = c["opts"]
+        if c["kind"] == "class":
+            return E.class_(ir, class_name="ConfigClass", emit_default_doc=o.get("emit_default_doc", True), word_wrap=False)
+        if c["kind"] == "argparse":
+            return E.argparse_function(ir, function_name="set_cli_args", emit_default_doc=o.get("emit_default_doc", True), word_wrap=False)
+        return E.function(ir, function_name=o.get("name", "call_peril"), function_type=o.get("function_type", "static"), emit_default_doc=o.get("emit_default_doc", True),
+                          word_wrap=False, inline_types=o.get("inline_types", True), emit_as_kwonlyargs=o.get("emit_as_kwonlyargs", False), indent_level=2)  # fmt: skip
 
     def runtime_view(self, c, art):
         src = kinds.to_source(c["kind"], art)
@@ -164,6 +194,14 @@ class C06(AstKindProp):
             ir, art = self.artefact(c)
         except Exception as e:
             return [{"what": "emitter raised", "exc": exc_kind(e), "kind": c["kind"]}]
+        if c["opts"].get("emitted_before"):
+            # the artefact must not depend on what the description object has been through
+            try:
+                fresh = kinds.to_source(c["kind"], self._emit_same_object(c, self._fresh_ir(c)))
+                if fresh != kinds.to_source(c["kind"], art):
+                    fails.append({"what": "artefact differs from the one emitted from a fresh copy of the description", "emitted_before": c["opts"]["emitted_before"], "kind": c["kind"]})
+            except Exception as e:
+                fails.append({"what": "emitter raised on a fresh copy only", "exc": exc_kind(e), "kind": c["kind"]})
         # (1) valid syntax, survives unparse/re-parse with an identical tree
         try:
             src = kinds.to_source(c["kind"], art)
